@@ -19,12 +19,12 @@ def _close(a, b, tol):
     return abs(a - b) <= tol * max(1.0, abs(a), abs(b))
 
 
-def differential(fn, tensors, tol=1e-4, exp_mode="uf"):
-    """fn: callable over torch tensors.  -> (ok, detail)"""
+def differential(fn, tensors, tol=1e-4, exp_mode="uf", real_fn=None):
+    """fn: callable over torch tensors (run symbolically); real_fn (default fn) is run on the real tensors.  -> (ok, detail)"""
     import torch
     from torch.utils._pytree import tree_flatten
     from . import torchfe as T
-    real = fn(*[t.clone() for t in tensors])
+    real = (real_fn or fn)(*[t.clone() for t in tensors])
     base = []
     env = {}
     specs = []
